@@ -174,6 +174,8 @@ class SymExec:
         self.ret = None
         self.path = sp.true
         self.loop_vars: list[tuple] = []   # (symbol, lo, hi)
+        self.module_funcs: dict = {}       # name -> FunctionDef of functions that may be inlined
+        self.depth = 0
 
     # ------------------------------------------------------------ expressions
     def ev(self, e):
@@ -334,10 +336,27 @@ class SymExec:
         # function-valued parameter bound in env
         if isinstance(f, ast.Name) and f.id in self.env and callable(self.env[f.id]):
             return self.env[f.id](self, e)
+        if isinstance(f, ast.Name) and f.id in self.module_funcs and self.depth < 4:
+            callee = self.module_funcs[f.id]
+            params = [a.arg for a in callee.args.args]
+            bound = {}
+            for p_, a_ in zip(params, e.args):
+                bound[p_] = self.ev(a_)
+            for k_ in e.keywords:
+                bound[k_.arg] = self.ev(k_.value)
+            nd = len(callee.args.defaults)
+            for p_, d_ in zip(params[len(params) - nd:], callee.args.defaults):
+                if p_ not in bound:
+                    bound[p_] = self.ev(d_)
+            sub = SymExec(callee, bound, self.calls, self.consts)
+            sub.module_funcs = self.module_funcs
+            sub.depth = self.depth + 1
+            sub.run()
+            return sub.ret if sub.ret is not None else sp.S.NaN
         if name in PURE_FUNCS:
             args = [self.ev(a) for a in e.args]
             return PURE_FUNCS[name](*args)
-        if name == "abs":
+        if name in ("abs", "np_abs", "fabs"):
             return sp.Abs(self.ev(e.args[0]))
         if name == "len":
             a = self.ev(e.args[0])
@@ -779,17 +798,23 @@ def sym_equal(a, b, max_atoms=10):
     return True, None
 
 
+ANNOTATION_SOURCE: dict = {}     # function name -> reference FunctionDef whose annotations type un-annotated copies
+
+
 def make_args(fn: ast.FunctionDef, arrays=(), funcs=None, scalars_real=True, overrides=None):
     """default symbolic bindings for the parameters of a kernel function"""
     args = {}
     funcs = funcs or {}
     overrides = overrides or {}
+    ref = ANNOTATION_SOURCE.get(fn.name)
+    refann = {a.arg: a.annotation for a in ref.args.args} if ref is not None else {}
     for a in fn.args.args:
         n = a.arg
         if n in overrides:
             args[n] = overrides[n]
             continue
-        ann = src(a.annotation) if a.annotation is not None else ""
+        an = a.annotation if a.annotation is not None else refann.get(n)
+        ann = src(an) if an is not None else ""
         if n in funcs:
             args[n] = funcs[n]
         elif n in arrays or "[" in ann:
